@@ -74,3 +74,85 @@ Definition m_usub (T : nty) : lir :=
 (* core.clamp_basetype on a variable of numeric type T *)
 Definition m_clamp_basetype (T : nty) : lir :=
   if nbytes T <? 32 then m_clamp_var (nbytes T) (nsigned T) "x" else vx.
+
+(* ------------------------------------------------------------------------------------------
+   Venom twins: vyper/codegen_venom/arithmetic.py  (safe_add safe_sub safe_mul safe_floordiv
+   safe_div safe_mod clamp_basetype) as emitted through VenomBuilder on a fresh function whose two
+   params are %1 (x) and %2 (y).  Operands in Venom storage order (see VSL.v). *)
+Local Infix "+++" := (@app vinstr) (right associativity, at level 60).
+Definition pn (n : nat) : string :=
+  match n with
+  | 1 => "%1" | 2 => "%2" | 3 => "%3" | 4 => "%4" | 5 => "%5" | 6 => "%6" | 7 => "%7" | 8 => "%8"
+  | 9 => "%9" | 10 => "%10" | 11 => "%11" | 12 => "%12" | 13 => "%13" | 14 => "%14" | 15 => "%15"
+  | 16 => "%16" | _ => ""
+  end%nat.
+Definition px := VVar "%1".
+Definition py := VVar "%2".
+
+(* clamp_basetype(b, val, typ) for IntegerT/DecimalT with bits < 256; fresh names start at n *)
+Definition v_clamp (T : nty) (v : vop) (n : nat) : list vinstr :=
+  if nsigned T then
+    [ V2 (pn n) OSlt (VLit (ty_lo T)) v; V1 (pn (n + 1)) OIszero (VVar (pn n));
+      V2 (pn (n + 2)) OSgt (VLit (ty_hi T)) v; V1 (pn (n + 3)) OIszero (VVar (pn (n + 2)));
+      V2 (pn (n + 4)) OAnd (VVar (pn (n + 3))) (VVar (pn (n + 1))); VAssert (VVar (pn (n + 4))) ]
+  else
+    [ V2 (pn n) OGt (VLit (ty_hi T)) v; V1 (pn (n + 1)) OIszero (VVar (pn n)); VAssert (VVar (pn (n + 1))) ].
+
+Definition v_safe_addsub (o : op2) (T : nty) : vtemplate :=
+  let r := VVar "%3" in
+  let body :=
+    if nbytes T <? 32 then v_clamp T r 4
+    else if nsigned T then
+      [ V2 "%4" OSlt (VLit 0) py; V2 "%5" (match o with OAdd => OSlt | _ => OSgt end) px r;
+        V2 "%6" OEq (VVar "%5") (VVar "%4"); VAssert (VVar "%6") ]
+    else
+      [ V2 "%4" (match o with OAdd => OLt | _ => OGt end) px r; V1 "%5" OIszero (VVar "%4"); VAssert (VVar "%5") ] in
+  (V2 "%3" o py px :: body, r).
+Definition v_safe_add := v_safe_addsub OAdd.
+Definition v_safe_sub := v_safe_addsub OSub.
+
+Definition v_min256 : vop := VLit (2 ^ 255).
+(* not (x == MIN and y == -1), fresh names n .. n+4, returns name n+4 *)
+Definition v_not_special (n : nat) : list vinstr :=
+  [ V2 (pn n) OEq v_min256 px; V1 (pn (n + 1)) ONot py; V1 (pn (n + 2)) OIszero (VVar (pn (n + 1)));
+    V2 (pn (n + 3)) OAnd (VVar (pn (n + 2))) (VVar (pn n)); V1 (pn (n + 4)) OIszero (VVar (pn (n + 3))) ].
+
+Definition v_safe_mul (T : nty) : vtemplate :=
+  let k := nbytes T in
+  let r := VVar "%3" in
+  let mul := V2 "%3" OMul py px in
+  if 16 <? k then
+    let chk := [ V2 "%4" (m_DIV T) py r; V2 "%5" OEq px (VVar "%4"); V1 "%6" OIszero py;
+                 V2 "%7" OOr (VVar "%6") (VVar "%5") ] in
+    if nsigned T && (k =? 32) then
+      (mul :: chk +++ v_not_special 8 +++ [ V2 "%13" OAnd (VVar "%12") (VVar "%7"); VAssert (VVar "%13") ], r)
+    else
+      let chk := chk +++ [ VAssert (VVar "%7") ] in
+      if ndec T then
+        (mul :: chk +++ [ V2 "%8" (m_DIV T) (VLit DIVISOR) r ] +++ (if k <? 32 then v_clamp T (VVar "%8") 9 else []), VVar "%8")
+      else
+        (mul :: chk +++ (if k <? 32 then v_clamp T r 8 else []), r)
+  else
+    (mul :: v_clamp T r 4, r).
+
+Definition v_nonzero_y (n : nat) : list vinstr :=
+  [ V1 (pn n) OIszero py; V1 (pn (n + 1)) OIszero (VVar (pn n)); VAssert (VVar (pn (n + 1))) ].
+
+Definition v_safe_div (T : nty) : vtemplate :=
+  let k := nbytes T in
+  if ndec T then
+    ( V2 "%3" OMul (VLit DIVISOR) px :: v_nonzero_y 4 +++ [ V2 "%6" (m_DIV T) py (VVar "%3") ]
+        +++ (if k <? 32 then v_clamp T (VVar "%6") 7 else []), VVar "%6")
+  else
+    let r := VVar "%5" in
+    let pre := v_nonzero_y 3 +++ [ V2 "%5" (m_DIV T) py px ] in
+    if nsigned T then
+      if k =? 32 then (pre +++ v_not_special 6 +++ [ VAssert (VVar "%10") ], r)
+      else (pre +++ v_clamp T r 6, r)
+    else (pre, r).
+
+Definition v_safe_mod (T : nty) : vtemplate :=
+  (v_nonzero_y 3 +++ [ V2 "%5" (if nsigned T then OSmod else OMod) py px ], VVar "%5").
+
+Definition v_clamp_basetype (T : nty) : vtemplate :=
+  (if nbytes T <? 32 then v_clamp T px 3 else [], px).
